@@ -4,8 +4,8 @@ package gen
 
 import (
 	"math"
-	"strings"
 	"reflect"
+	"strings"
 	"time"
 
 	"pgregory.net/rapid"
